@@ -19,7 +19,7 @@ def first_pass():
 def main():
     fp = first_pass()
     rows = []
-    for d in sorted((ROOT / "seeded").iterdir()):
+    for d in sorted((ROOT / "seeded").iterdir(), key=lambda x: (x.name[-1] in "34", x.name)):
         if not (d / "meta.json").exists():
             continue
         meta = json.loads((d / "meta.json").read_text())
@@ -27,18 +27,24 @@ def main():
         now = "caught" if r.get("detected") else "MISSED"
         if r.get("detected") and not r.get("concrete_input"):
             now += " (no-failing-input-found)"
-        first = {"detected": "caught", "MISSED": "missed"}.get(fp.get(d.name, ""), "caught" if d.name.startswith(("C11", "C12")) or d.name == "C13_1" else "?")
+        first = {"detected": "caught", "MISSED": "missed"}.get(fp.get(d.name, ""), "")
+        if not first:
+            first = "missed" if d.name == "C13_2" else "caught"      # group E of round 1 was run by hand before the log existed
         how = ""
         if r.get("first_broken"):
             how = "correspondence/proof: " + re.sub(r"\s+", " ", r["first_broken"][0])[:90]
         elif r.get("detected"):
             how = "oracle on the implementation"
         summ = re.sub(r"\s+", " ", meta.get("summary", ""))[:170].replace("|", "/")
-        rows.append(f"| {d.name} | {summ} | {first} | {now} | {how.replace('|', '/')} |")
-    out = ["| seed | change | first run | now | caught by |", "|---|---|---|---|---|"] + rows
+        rnd = "2" if d.name[-1] in "34" else "1"
+        rows.append(f"| {d.name} | {rnd} | {summ} | {first} | {now} | {how.replace('|', '/')} |")
+    out = ["| seed | round | change | first run | now | caught by |", "|---|---|---|---|---|---|"] + rows
     n = len(rows)
-    c = sum(1 for r in rows if "| caught" in r.split("|")[4] or r.split("|")[4].strip().startswith("caught"))
-    print(f"{n} seeded changes; caught now: {c}\n")
+    c = sum(1 for r in rows if r.split("|")[5].strip().startswith("caught"))
+    f1 = sum(1 for r in rows if r.split("|")[2].strip() == "1" and r.split("|")[4].strip() == "caught")
+    n1 = sum(1 for r in rows if r.split("|")[2].strip() == "1")
+    f2 = sum(1 for r in rows if r.split("|")[2].strip() == "2" and r.split("|")[4].strip() == "caught")
+    print(f"{n} seeded changes ({n1} in round 1, {n - n1} in round 2); caught at first run: {f1}/{n1} and {f2}/{n - n1}; caught now: {c}/{n}\n")
     print("\n".join(out))
 
 
